@@ -7,7 +7,7 @@ META = {
     "explanation": (
         "C14: none of these paths may drop or merge messages on its own. R1 the supply lane's event queue and the supply backpressure "
         "buffer are only ever used as FIFOs (push_back/pop_front; length-prefixed append / read one record); R2 supply responses go to the "
-        "supply uplink map and are queued with UplinkKind::Supply; R3 a supply uplink re-queues itself while it has data; R4 the ad hoc "
+        "supply uplink map and are queued with UplinkKind::Supply; R3 a supply uplink re-queues itself while it has data, and a record taken out by prepare_write is always sent (R3b: the ValueSynced flag is the has_data() sampled before prepare_write); R4 the ad hoc "
         "command buffer: append truncates only back to the last *overwritable* record, the offset only stays behind for an overwritable "
         "record, and write hands over exactly the pending records (the send buffer is reset before it is filled); R5 the read task flushes a "
         "lane's sender before switching lanes and feeds every command; R6 the command lane handler runs once per command; R7 every received "
@@ -79,6 +79,9 @@ def run(ctx):
 
     with ctx.rule("C14.R3", "T2", "a supply uplink re-queues itself while it has data", floor=1) as r:
         uplinks.requeue_while_data(r, ctx, kinds=("Supply",))
+
+    with ctx.rule("C14.R3b", "T7", "a record popped from a supply uplink is always sent: the 'send the value' flag of ValueSynced is exactly has_data()", floor=5) as r:
+        uplinks.no_data_no_event(r, ctx)
 
     with ctx.rule("C14.R4", "T6+T7", "CommandOutput: only an overwritable trailing record can be superseded; write hands over exactly the pending records", floor=7) as r:
         CO = "external_links::CommandOutput"
